@@ -13,7 +13,7 @@ rsync -a --exclude target /repo/ $copy/
 git -C $copy apply $patch || { echo "patch does not apply"; rm -rf $copy; exit 3; }
 mkdir -p seeded/$id/run
 out=seeded/$id/run/check_${prop}_${tier}.txt
-VERIF_REPO=$copy VERIF_EVIDENCE_DIR=$PWD/seeded/$id/run VERIF_REPLAY_DIR=$PWD/seeded/$id/run/replay VERIF_JOBS=${VERIF_JOBS:-6} \
+VERIF_REPO=$copy VERIF_REPLAY_TARGET=$copy/target_replay VERIF_EVIDENCE_DIR=$PWD/seeded/$id/run VERIF_REPLAY_DIR=$PWD/seeded/$id/run/replay VERIF_JOBS=${VERIF_JOBS:-6} \
   python3-vt -m mirseq.check $prop --tier $tier "$@" 2>&1 | grep --line-buffered -v "^warning\|^   |\|^    =\|^$" | tee $out
 rc=${PIPESTATUS[0]}
 echo "exit=$rc" | tee -a $out
